@@ -22,12 +22,25 @@ static bool must_reject_key(const std::string &k) {
 static size_t max_value_len(const std::string &k) { return k.size() <= 8 ? 68 : 80 - (13 + k.size()); }
 
 static const char *KEYS[] = {"A", "KEY1", "ABCDEFGH", "X_Y", "A-B", "LONGERKEYNAME", "HIERARCH_STYLE_KEY_01", "A_VERY_VERY_LONG_KEY_NAME_FOR_HIERARCH_USE", "BITPIX", "NAXIS1", "ORDER0", "TYPE", "PERIOD2", "EXTEND", "COMMENT", "SIMPLE",
-                             "lower", "Mixed", "SP ACE", "PUNCT.KEY", "K=V", "longerlowercasekey", "LONG=KEYWITHEQUALS", "", "END", "HISTORY", "CONTINUE", "BSCALE", "BZERO", "BLANK", "EXTNAME", "DATE", "CHECKSUM", "GEOM", "Z9"};
+                             "lower", "Mixed", "SP ACE", "PUNCT.KEY", "K=V", "longerlowercasekey", "LONG=KEYWITHEQUALS", "", "END", "HISTORY", "CONTINUE", "BSCALE", "BZERO", "BLANK", "EXTNAME", "DATE", "CHECKSUM", "GEOM", "Z9",
+                             // keys that interact with the HIERARCH convention, blanks and punctuation inside long keys, the 8/9 character boundary
+                             "HIERARCH", "HIERARCH FOO", "HIERARCH LONGER KEY NAME", "HIERARCHX", " LEADING BLANK KEY", "TRAILING BLANK KEY ", "DOUBLE  BLANK KEY", "ICE MODEL VERSION", "DOTTED.LONG.KEY.NAME",
+                             "ABCDEFGHI", "A1234567", "LONG-KEY_WITH-PUNCT", "KEY WITH 'QUOTE'", "TAB\tIN LONG KEY", "LONGKEY/WITH/SLASH", "LONG KEY WITH & AMP", "NON-ASCII-\xc3\xa9-LONGKEY", "SHORT\xe9"};
 static const int NKEYS = sizeof(KEYS) / sizeof(KEYS[0]);
 
 static std::string gen_strvalue(Rng &r, const std::string &key) {
 	size_t mx = max_value_len(key.size() ? key : "A");
-	switch (r.below(14)) {
+	switch (r.below(24)) {
+	case 14: { std::string v(mx, 'q'); v[r.below(mx)] = '\''; return v; }                                  // maximal length with one quote (doubles in the card)
+	case 15: { size_t q = 1 + r.below(4); if (mx < 2 * q + 1) return "'"; std::string v(mx - q, 'f'); for (size_t i = 0; i < q; i++) v[2 * i] = '\''; return v; } // fits exactly once its quotes are doubled
+	case 16: return std::string(mx / 2 + r.below(2), '\'');                                                // nothing but quotes: exactly fitting / one too many
+	case 17: { std::string v(mx, 'b'); v[0] = ' '; v[1] = ' '; return v; }                                  // maximal length with leading blanks
+	case 18: return std::string(1 + r.below(5), ' ');                                                        // blanks only
+	case 19: return r.coin(0.5) ? "tab\there" : "line\nbreak";                                               // control characters
+	case 20: return "caf\xc3\xa9";                                                                           // non-ASCII
+	case 21: { std::string v(mx, 'e'); v[mx - 1] = '&'; return v; }                                         // maximal length ending in the continuation marker
+	case 22: return "'";
+	case 23: return std::string(150 + r.below(100), 'L');                                                    // far too long
 	case 0: return "";
 	case 1: return std::string(mx, 'm');                      // maximal length
 	case 2: return std::string(mx + 1, 'n');                  // one too long
